@@ -60,6 +60,8 @@ fn witness_u2() {
     let cond = Term { source_range: None, variant: If(Rc::new(t), Rc::new(a), Rc::new(b)) };
     assert(view(cond) == STerm::Node(Kind::If, s3(view(t), view(a), view(b))));
     let s = step(&cond);
+    proof { reveal_with_fuel(t_unifier_free, 3); assert(t_unifier_free(cond)); }
+    let s2 = step_strict(&cond);
     proof {
         broadcast use group_fv;
         assert forall|x: nat| !#[trigger] s_has_fv(view(cond), 0, x) by {}
@@ -82,7 +84,8 @@ fn canary_step() {
     let cond = Term { source_range: None, variant: If(Rc::new(t), Rc::new(a), Rc::new(b)) };
     assert(view(cond) == STerm::Node(Kind::If, s3(view(t), view(a), view(b))));
     let s = step(&cond);
-    assert(s is None || view(s->Some_0) != view(a));
+    proof { reveal(s_step01); }
+    assert(s is None || (view(s->Some_0) != view(a) && view(s->Some_0) != view(cond)));
 }
 fn canary_evaluate() {
     broadcast use group_ok;
@@ -95,4 +98,19 @@ fn canary_evaluate() {
     let e = evaluate(&t);
     assert(e is Err ==> false);
     assert(e is Ok ==> !s_value(view(e->Ok_0)));
+}
+
+fn canary_step_strict() {
+    broadcast use {group_ok, group_step};
+    let t = Term { source_range: None, variant: True };
+    let a = Term { source_range: None, variant: Type };
+    let b = Term { source_range: None, variant: Integer };
+    assert(view(t) == STerm::Node(Kind::True, s0()));
+    assert(view(a) == STerm::Node(Kind::Type, s0()));
+    assert(view(b) == STerm::Node(Kind::Integer, s0()));
+    let cond = Term { source_range: None, variant: If(Rc::new(t), Rc::new(a), Rc::new(b)) };
+    assert(view(cond) == STerm::Node(Kind::If, s3(view(t), view(a), view(b))));
+    proof { reveal_with_fuel(t_unifier_free, 3); assert(t_unifier_free(cond)); }
+    let s = step_strict(&cond);
+    assert(s is None || view(s->Some_0) != view(a));
 }
